@@ -136,6 +136,30 @@ struct VerifTransport {
 // Construction
 // ============================================================================
 
+/// Drop guard that removes a pending request entry when `send_request` ends,
+/// whether it returned or its future was dropped before completion.
+struct PendingRequestGuard {
+    table: Arc<RwLock<HashMap<String, PendingRequest>>>,
+    message_id: String,
+}
+
+impl Drop for PendingRequestGuard {
+    fn drop(&mut self) {
+        if let Ok(mut reqs) = self.table.try_write() {
+            reqs.remove(&self.message_id);
+            return;
+        }
+        // Table is busy: finish the removal on the runtime instead of blocking in drop.
+        if let Ok(handle) = tokio::runtime::Handle::try_current() {
+            let table = Arc::clone(&self.table);
+            let message_id = std::mem::take(&mut self.message_id);
+            handle.spawn(async move {
+                table.write().await.remove(&message_id);
+            });
+        }
+    }
+}
+
 impl TransportHandle {
     /// Create a new transport handle with the given configuration.
     ///
@@ -728,6 +752,12 @@ impl TransportHandle {
                 },
             );
         }
+        // Removes the entry on every exit path, including the caller dropping
+        // this future (cancellation), so the table never accumulates orphans.
+        let _pending_guard = PendingRequestGuard {
+            table: Arc::clone(&self.active_requests),
+            message_id: message_id.clone(),
+        };
 
         let envelope = RequestResponseEnvelope {
             message_id: message_id.clone(),
